@@ -313,6 +313,23 @@ static void gen_fill_token(app_tok_t *t, vh_rng_t *rng, int depth)
       t->addr[15] = (uint8_t)uniq;
     }
     snprintf(t->name, sizeof(t->name), "(addr)");
+    t->ni_flags = 0;
+    if (t->kind == RK_GETNAMEINFO && !(gen_profile_flags & GP_NO_WEIRD_TYPES) && vh_chance(rng, 1, 3)) {
+      /* every combination of the flag bits, the contradictory and the refused ones included */
+      static const int nif[] = { ARES_NI_NOFQDN, ARES_NI_NUMERICHOST, ARES_NI_NAMEREQD, ARES_NI_NUMERICSERV, ARES_NI_DGRAM,
+                                 ARES_NI_LOOKUPHOST, ARES_NI_LOOKUPSERVICE, ARES_NI_NUMERICSCOPE, ARES_NI_IDN };
+      int k, n = vh_range(rng, 1, 4);
+      for (k = 0; k < n; k++) {
+        t->ni_flags |= nif[vh_below(rng, sizeof(nif) / sizeof(nif[0]))];
+      }
+      sim_note("getnameinfo_flag_variety");
+    }
+  }
+  t->odd_args = 0;
+  if (!(gen_profile_flags & GP_NO_WEIRD_TYPES) && vh_chance(rng, 1, 14) &&
+      (t->kind == RK_GETADDRINFO || t->kind == RK_GETHOSTBYNAME || t->kind == RK_GETHOSTBYADDR)) {
+    t->odd_args = 1 + (int)vh_below(rng, 462);
+    sim_note("request_with_odd_arguments");
   }
   /* re-entrant action */
   t->action = RA_NONE;
